@@ -154,9 +154,18 @@ def shards(tier, seed):
 
 
 # ----------------------------------------------------------------------------- the checks
+ILL = "nearly defective / badly scaled Q"
+WELL = "well-conditioned Q"
+
+
 def cond_class(Q):
-    k = D.eig_condition(numpy.asarray(Q, float))
-    return "eigvec cond > 1e6" if k > 1e6 else "eigvec cond <= 1e6"
+    """structural class of a rate matrix for signatures: eigenvector condition number > 1e6 or
+    positive rates spanning more than 9 orders of magnitude"""
+    Q = numpy.asarray(Q, float)
+    off = Q[~numpy.eye(len(Q), dtype=bool)]
+    pos = off[off > 0]
+    spread = float(pos.max() / pos.min()) if len(pos) else 1.0
+    return ILL if D.eig_condition(Q) > 1e6 or spread > 1e9 else WELL
 
 
 def norm_class(a):
@@ -303,10 +312,10 @@ def check_case(name, case, acc, report=True):
 
     def pfail(sig_text, cls, detail):
         """one root cause (eigen-decomposition on a nearly defective Q) -> one signature per route"""
-        if eigen_route and cls == "eigvec cond > 1e6":
+        if eigen_route and cls == ILL:
             detail = dict(detail, symptom=sig_text)
             route = "either" if setting == "default expm" else setting
-            fail(f"eigen-decomposition exponentiation inaccurate (> 1e-8) on nearly defective Q [expm={route}]", detail)
+            fail(f"eigen-decomposition exponentiation inaccurate (> 1e-8) on nearly defective / badly scaled Q [expm={route}]", detail)
         else:
             fail(f"{sig_text} [{setting}; {cls}]", detail)
 
@@ -408,8 +417,8 @@ def direct_backends(name, full, Q, wp, fail, acc):
                     c = "reversible Q"
                 else:
                     c = cls
-                if bname in ("FastExponentiator", "CheckedExponentiator") and cls == "eigvec cond > 1e6":
-                    fail(f"eigen-decomposition exponentiation inaccurate (> 1e-8) on nearly defective Q [{bname}]",
+                if bname in ("FastExponentiator", "CheckedExponentiator") and cls == ILL:
+                    fail(f"eigen-decomposition exponentiation inaccurate (> 1e-8) on nearly defective / badly scaled Q [{bname}]",
                          {"t": t, "max_abs_diff": float(d)})
                 else:
                     fail(f"{bname}: differs from scipy expm(Q t) [{c}]", {"t": t, "max_abs_diff": float(d), "|Q t|_inf": qn * t})
